@@ -214,6 +214,27 @@ func TestVerifC09(t *testing.T) {
 		line := fmt.Sprintf("c09 prefix %d", n)
 		r.Case("prefix/"+fmt.Sprint(len(p)), line, true)
 		r.Compare("prefix", line, real, r.Model(line))
+		// oracle on the real code alone: a chunk of n bytes written by WriteData reads back as n bytes
+		if n < 1<<20 {
+			d := make([]byte, n)
+			if n > 0 {
+				d[0], d[n-1], d[n/2] = 0xa5, 0x5a, byte(n)
+			}
+			var buf bytes.Buffer
+			buf.Grow(n + 4)
+			if _, err := WriteData(&buf, d); err != nil {
+				r.OracleFail("writedata-rejects-valid-length", line, err.Error(), "WriteData must accept every chunk shorter than 2^20")
+				continue
+			}
+			enc := buf.Len()
+			got, err := ReadData(&buf)
+			if err != nil || !bytes.Equal(got, d) || buf.Len() != 0 {
+				r.OracleFail("roundtrip-length", line, fmt.Sprintf("encoded %d bytes, read back %d bytes, err %v, %d left", enc, len(got), err, buf.Len()),
+					"a chunk written by WriteData must be read back exactly by ReadData")
+			}
+		} else if err == nil {
+			r.OracleFail("prefix-accepts-too-long", line, real, "lengths of 2^20 and above cannot be encoded in three prefix bytes")
+		}
 	}
 
 	// 2. padding: exact size, invisible, equals the model's bytes
@@ -248,8 +269,18 @@ func TestVerifC09(t *testing.T) {
 		line := fmt.Sprintf("c09 max %d", n)
 		r.Case("max", line, true)
 		r.Compare("maxdata", line, fmt.Sprint(m), r.Model(line))
-		if p, err := dataPrefixForLength(m); err != nil || m+len(p) > n {
-			r.OracleFail("maxdata-budget", line, fmt.Sprint(m), "a chunk of MaxDataForSize(n) bytes must encode within n bytes")
+		var buf bytes.Buffer
+		if m < 0 || m > 1<<21 {
+			r.OracleFail("maxdata-budget", line, fmt.Sprint(m), "MaxDataForSize out of range")
+			continue
+		}
+		buf.Grow(m + 4)
+		w, err := WriteData(&buf, make([]byte, m))
+		if err != nil || w != buf.Len() || buf.Len() > n {
+			r.OracleFail("maxdata-budget", line, fmt.Sprintf("MaxDataForSize=%d, WriteData wrote %d bytes, err %v", m, buf.Len(), err),
+				"a chunk of MaxDataForSize(n) bytes must be encodable within n bytes")
+		} else if got, err := ReadData(&buf); err != nil || len(got) != m {
+			r.OracleFail("maxdata-roundtrip", line, fmt.Sprintf("read back %d bytes, err %v", len(got), err), "the budget-sized chunk must read back")
 		}
 	}
 
